@@ -220,11 +220,15 @@ fn macro_expand(
         bail!("call undefined macro {} on {}", macro_name, line);
     }
 
+    // the last segment is kept even when it is empty: it is the segment the body leaves the
+    // assembler in (`.eseg` ... `.cseg` at the end of a body must get back to the code segment)
+    let last = segments.borrow().len() - 1;
     let segments = segments
         .borrow()
         .iter()
-        .filter(|x| !x.borrow().is_empty())
-        .map(|x| x.borrow().clone())
+        .enumerate()
+        .filter(|(i, x)| *i == last || !x.borrow().is_empty())
+        .map(|(_, x)| x.borrow().clone())
         .collect();
 
     Ok(segments)
